@@ -89,7 +89,16 @@ fn main() {
         "build" => {
             // warm the caches: fixed universe + seeded universe for the current seed
             match build::prepare(&opts, &["fixed".to_string(), "extra".to_string(), "zst".to_string(), format!("s{}", opts.seed)]) {
-                Ok(_) => 0,
+                Ok(_) => {
+                    // the release-like variant of the fixed universe (C02, C11, C12, C15 run it in the quick tier)
+                    build::set_variant("-rel");
+                    let r = build::prepare(&opts, &["fixed".to_string()]);
+                    build::set_variant("");
+                    if let Err(e) = r {
+                        eprintln!("{}", e);
+                    }
+                    0
+                }
                 Err(e) => {
                     eprintln!("{}", e);
                     2
